@@ -701,9 +701,9 @@ def run_property(prop, tier, seed):
                         continue
                     tag = hashlib.sha256(json.dumps(vals).encode()).hexdigest()[:10]
                     rep_dev, case, tail = playback(ov, j.module, j.harness, vals, release=False, tag=tag)
-                    if rep_dev is not None:
+                    if rep_dev is True or (rep_dev is not None and not sliced):
                         break
-                    # value list did not fit the harness (sliced trace): take the full trace
+                    # sliced trace: value list did not fit the harness, or the shifted values did not fail natively: take the full trace
                 if vals is None:
                     notes.append(f"{j.harness}: no trace obtained for {ppid}")
                     continue
